@@ -1,9 +1,10 @@
-"""Regenerate every Gen/*.v from /repo's current tree and refresh _CoqProject."""
-import importlib, os, sys, traceback
+"""Regenerate every Gen/*.v from /repo's current tree (every tools/regen_c*.py) and refresh _CoqProject."""
+import glob, importlib, os, sys, traceback
 sys.path.insert(0, os.path.dirname(os.path.abspath(__file__)))
 import vlib
 rc = 0
-for mod in ["regen_c20"]:
+for path in sorted(glob.glob(os.path.join(os.path.dirname(os.path.abspath(__file__)), "regen_c*.py"))):
+    mod = os.path.basename(path)[:-3]
     try:
         importlib.import_module(mod).regen()
     except Exception:
